@@ -134,6 +134,7 @@ type replayT struct {
 	FollowUp   *kslab.Op    `json:"follow_up,omitempty"`
 	SameHandle bool         `json:"same_handle,omitempty"`
 	Ring       *ringReplay  `json:"ring,omitempty"`
+	Flock      *flockReplay `json:"flock,omitempty"`
 }
 
 type finding struct{ key, msg string }
@@ -1604,6 +1605,11 @@ func main() {
 		return false
 	}
 
+	// (sequential, before the parallel parts: its hooks are process-wide)
+	if want(*onlyCfg, "v2-dir") {
+		flockPart(r)
+	}
+
 	rn := &runner{r: r, weak: r.Thorough()}
 	t0 := time.Now()
 	var jobs []job
@@ -1669,7 +1675,7 @@ func main() {
 	r.Assume("Themis is replaced by the pure-Go stand-in /verif/shim/gothemis",
 		"v1 seam: kslab.MemFS conforms to filesystem.FileStorage (bin/check C06 -selftest)",
 		"baseline durability: a seam call that returned is durable, rename is atomic (v2 Put fsyncs; v1 does not - the weaker v1 model is enumerated separately in thorough)",
-		"one fault per operation; a failed Unlock/RUnlock reports the error and the lock is released (what flock's poisoned-lock path does)",
+		"one fault per operation; at the api.Backend seam a failed Unlock/RUnlock reports the error and the lock is released; what the real file lock does when flock(2) itself fails is enumerated separately (flock part, build overlay)",
 		"injected errors are generic I/O errors (v1: *os.PathError EIO), never 'not exist'",
 		"handles are driven sequentially (concurrent writers: C17)",
 		"acra-rotate: only the key store side (SaveDataEncryptionKeys) is faulted; data files re-encrypted before the key is saved are outside the statement",
